@@ -230,6 +230,9 @@ def gen_plan(seed):
         'p_reuse_left': rng.choice([0.0, 0.1, 0.3]),
         'small_exprs': crowd or rng.random() < 0.3,
         'p_infunc': rng.choice([0.0, 0.3, 0.6]),
+        # one Ordering object per ordering, shared by every diagram built
+        # under it (instead of a fresh list per diagram)
+        'shared_orderings': rng.random() < 0.4,
     }
 
     def pool():
@@ -259,6 +262,8 @@ def gen_plan(seed):
                       ('drop_deferred', cfg['w_deferred'])]
         kinds.append(('gc', cfg['w_gc']))
         kinds.append(('bad_build', cfg['w_bad']))
+        kinds.append(('bad_raw', 0.7 * cfg['w_bad']))
+        kinds.append(('touch_ordering', 0.3 * cfg['w_bad']))
         kinds.append(('ordering_storm', 0.3 * cfg['w_storm']))
         kinds.append(('release_exc', cfg['w_bad']))
         tot = sum(w for _, w in kinds)
@@ -271,8 +276,8 @@ def gen_plan(seed):
             x -= w
         if kind == 'gc' and cfg['w_gc'] == 0:
             kind = 'build'
-        if kind in ('bad_build', 'release_exc', 'bad_combine') and \
-                cfg['w_bad'] == 0:
+        if kind in ('bad_build', 'release_exc', 'bad_combine', 'bad_raw',
+                    'touch_ordering') and cfg['w_bad'] == 0:
             kind = 'build'
         if kind == 'ordering_storm' and cfg['w_storm'] == 0:
             kind = 'build'
@@ -328,6 +333,20 @@ def gen_plan(seed):
                       'op': rng.choice('&|^')}
             else:
                 op = {'k': 'gc'}
+        elif kind == 'bad_raw':
+            # a user error with raw nodes: a hand-made diagram that does not
+            # respect the ordering is offered twice (the second time after
+            # the first rejection); if it is ever accepted it becomes an
+            # ordinary slot for the conjunction of its two variables
+            oi = rng.randrange(norder)
+            i1, i2 = sorted(rng.sample(range(len(VARS)), 2))
+            op = {'k': 'bad_raw', 's': slot, 'o': oi,
+                  'v1': orderings[oi][i1], 'v2': orderings[oi][i2]}
+        elif kind == 'touch_ordering':
+            if occ:
+                op = {'k': 'touch_ordering', 'a': rng.choice(sorted(occ))}
+            else:
+                op = {'k': 'gc'}
         elif kind == 'release_exc':
             op = {'k': 'release_exc'}
         elif kind == 'ordering_storm':
@@ -342,7 +361,7 @@ def gen_plan(seed):
         else:
             op = {'k': 'gc'}
         lib = op['k'] not in ('gc', 'drop', 'drop_deferred', 'release_exc',
-                              'ordering_storm')
+                              'ordering_storm', 'touch_ordering', 'bad_raw')
         after_zombie = bool(ops) and ops[-1]['k'] == 'drop_deferred'
         if lib and (rng.random() < cfg['midgc_p'] or
                     (after_zombie and cfg['midgc_p'] > 0 and
@@ -432,6 +451,15 @@ def execute(plan):
     gc.freeze()
 
     orderings = plan['orderings']
+    if plan['cfg'].get('shared_orderings'):
+        Ordering = sys.modules['pyModelChecking.BDD.ordering'].Ordering
+        shared = [Ordering(list(o)) for o in orderings]
+
+        def ordering_arg(oi):
+            return shared[oi]
+    else:
+        def ordering_arg(oi):
+            return list(orderings[oi])
     slots = {}        # slot -> [obdd, model function, ordering index, route]
     held_exc = []
     probes = {}
@@ -712,6 +740,37 @@ def execute(plan):
                 del t
             faults['ordering_storm'] = faults.get('ordering_storm', 0) + 1
             return None
+        if k == 'touch_ordering':
+            # the caller plays with a list the library handed out
+            if op['a'] in slots:
+                try:
+                    lst = slots[op['a']][0].ordering.get_list()
+                    lst.reverse()
+                    faults['caller_mutated_ordering_list'] = \
+                        faults.get('caller_mutated_ordering_list', 0) + 1
+                except Exception:
+                    pass
+            return None
+        if k == 'bad_raw':
+            t0, t1 = BDDNode(0), BDDNode(1)
+            inner = BDDNode(op['v1'], t0, t1)
+            node = BDDNode(op['v2'], t0, inner)     # v2 above v1: unordered
+            got = None
+            for attempt in (1, 2):
+                try:
+                    got = OBDD(node, ordering_arg(op['o']))
+                except Exception as e:
+                    held_exc.append(e)
+                    faults['user_error_mid_history'] = \
+                        faults.get('user_error_mid_history', 0) + 1
+            del node, inner
+            if got is not None:
+                probe('unordered_raw_diagram_accepted')
+                slots[op['s']] = [got, fn_apply('&', fn_var(op['v1']),
+                                                fn_var(op['v2'])),
+                                  op['o'], 'raw']
+                return op['s']
+            return None
         if k == 'release_exc':
             if held_exc:
                 del held_exc[:]
@@ -785,7 +844,7 @@ def execute(plan):
             sys.settrace(global_trace)
         try:
             if k == 'build':
-                ob = OBDD(expr_text(op['e']), list(orderings[op['o']]))
+                ob = OBDD(expr_text(op['e']), ordering_arg(op['o']))
                 made = [ob, fm, op['o'], 'parse']
             elif k == 'combine':
                 A = slots[op['a']]
@@ -805,7 +864,7 @@ def execute(plan):
                 made = [A[0].restrict(var, op['b']), fm, A[2], 'restrict']
             elif k == 'bad_build':
                 try:
-                    OBDD(expr_text(op['e']), list(orderings[op['o']]))
+                    OBDD(expr_text(op['e']), ordering_arg(op['o']))
                 except Exception as e:
                     held_exc.append(e)
                     faults['user_error_mid_history'] = \
@@ -830,7 +889,7 @@ def execute(plan):
                             faults.get('user_error_mid_history', 0) + 1
             elif k == 'dnf':
                 A = slots[op['a']]
-                made = [OBDD(fn_dnf_text(fm), list(orderings[A[2]])),
+                made = [OBDD(fn_dnf_text(fm), ordering_arg(A[2])),
                         fm, A[2], 'dnf']
             else:
                 raise core.HarnessError('unknown op ' + k)
@@ -878,7 +937,7 @@ def execute(plan):
                     ob, fm, oi, _ = slots[s]
                     if len(fm[0]) > 6:
                         continue    # no sum-of-products route at this size
-                    w = OBDD(fn_dnf_text(fm), list(orderings[oi]))
+                    w = OBDD(fn_dnf_text(fm), ordering_arg(oi))
                     tw, mask = evaluate(w, fm[0])
                     if tw == (fm[1] & mask) and not (w == ob):
                         raise Violation(
